@@ -27,6 +27,9 @@ def sh(cmd, cwd=None, env=None, timeout=3600):
 def main():
     name, wt, prop = sys.argv[1], sys.argv[2], sys.argv[3]
     run_all = "--all" in sys.argv
+    # --recheck: the change is already filed under seeded/<name>/ (claims verified then); only run the
+    # checks again in their present state and update "checks"/"caught_by" in its meta.json
+    recheck = "--recheck" in sys.argv
     tier = sys.argv[sys.argv.index("--tier") + 1] if "--tier" in sys.argv else "quick"
     out = os.path.join(wt, "out")
     dest = os.path.join("/verif", "seeded", name)  # results always land in the live /verif, also when run from a vp snapshot
@@ -38,6 +41,11 @@ def main():
         except Exception as e:
             meta = {"author_meta_unreadable": str(e)}
     res = {"property": prop, "author": meta, "verified": {}, "checks": {}}
+    if recheck:
+        out = dest
+        res = json.load(open(os.path.join(dest, "meta.json")))
+        res["checks"] = {}
+        meta = res.get("author", {})
     env = dict(os.environ, CARGO_NET_OFFLINE="true", CARGO_TARGET_DIR="/tmp/seedchk/suite-target")
     # --- 0. a private scratch worktree: pinned tree + the author's patch (+ the demonstration)
     # (git stash is shared between worktrees of one repository, so it is never used here)
@@ -58,21 +66,22 @@ def main():
     if os.path.exists(demo):
         shutil.copy(demo, os.path.join(wt, "tests", "seeded_demo.rs"))
     # --- 1. claims
-    rc, o = sh("git diff --cached --stat -- src | tail -1", cwd=wt)
-    res["verified"]["diffstat"] = o.strip()
-    rc, o = sh("cargo nextest run --workspace --no-fail-fast --offline --test-threads 8 -E 'not binary(seeded_demo)' 2>&1 | tail -3", cwd=wt, env=env)
-    res["verified"]["suite_with_change"] = o.strip().splitlines()[-1] if o.strip() else ""
-    suite_ok = "164 passed" in o and "failed" not in o.split("Summary")[-1]
-    rc1, o1 = sh("cargo test --offline --test seeded_demo 2>&1 | tail -15", cwd=wt, env=env)
-    demo_fails = rc1 != 0 or "FAILED" in o1 or "failed" in o1
-    sh("git apply -R --index %s" % patch, cwd=wt)
-    try:
-        rc2, o2 = sh("cargo test --offline --test seeded_demo 2>&1 | tail -5", cwd=wt, env=env)
-    finally:
-        sh("git apply --index %s" % patch, cwd=wt)
-    demo_passes = "test result: ok" in o2 and "FAILED" not in o2
-    res["verified"].update({"suite_passes_with_change": suite_ok, "demo_fails_with_change": demo_fails, "demo_passes_without_change": demo_passes, "demo_output_with_change": o1[-800:]})
-    print("[seedtest] %s: suite_ok=%s demo_fails=%s demo_passes_without=%s" % (name, suite_ok, demo_fails, demo_passes), flush=True)
+    if not recheck:
+      rc, o = sh("git diff --cached --stat -- src | tail -1", cwd=wt)
+      res["verified"]["diffstat"] = o.strip()
+      rc, o = sh("cargo nextest run --workspace --no-fail-fast --offline --test-threads 8 -E 'not binary(seeded_demo)' 2>&1 | tail -3", cwd=wt, env=env)
+      res["verified"]["suite_with_change"] = o.strip().splitlines()[-1] if o.strip() else ""
+      suite_ok = "164 passed" in o and "failed" not in o.split("Summary")[-1]
+      rc1, o1 = sh("cargo test --offline --test seeded_demo 2>&1 | tail -15", cwd=wt, env=env)
+      demo_fails = rc1 != 0 or "FAILED" in o1 or "failed" in o1
+      sh("git apply -R --index %s" % patch, cwd=wt)
+      try:
+          rc2, o2 = sh("cargo test --offline --test seeded_demo 2>&1 | tail -5", cwd=wt, env=env)
+      finally:
+          sh("git apply --index %s" % patch, cwd=wt)
+      demo_passes = "test result: ok" in o2 and "FAILED" not in o2
+      res["verified"].update({"suite_passes_with_change": suite_ok, "demo_fails_with_change": demo_fails, "demo_passes_without_change": demo_passes, "demo_output_with_change": o1[-800:]})
+      print("[seedtest] %s: suite_ok=%s demo_fails=%s demo_passes_without=%s" % (name, suite_ok, demo_fails, demo_passes), flush=True)
     # --- 2. checks
     props = [prop]
     if run_all:
@@ -98,17 +107,20 @@ def main():
     res["caught_by_own_check"] = res["checks"][prop]["exit"] == 1
     res["caught_by"] = [p for p, v in res["checks"].items() if v["exit"] == 1]
     # --- 3. file it
-    for f in ("patch.diff", "seeded_demo.rs"):
-        if os.path.exists(os.path.join(out, f)):
-            shutil.copy(os.path.join(out, f), os.path.join(dest, f))
-    shutil.copy(patch, os.path.join(dest, "patch.diff"))
+    if not recheck:
+        for f in ("patch.diff", "seeded_demo.rs"):
+            if os.path.exists(os.path.join(out, f)):
+                shutil.copy(os.path.join(out, f), os.path.join(dest, f))
+        shutil.copy(patch, os.path.join(dest, "patch.diff"))
     res["what_was_run"] = [
         "cargo nextest run --workspace --no-fail-fast --offline --test-threads 8 -E 'not binary(seeded_demo)'  (in a fresh scratch worktree of /repo's HEAD with patch.diff applied)",
         "cargo test --offline --test seeded_demo  (with the change: must fail; with the patch reversed (git apply -R): must pass)",
         "VMON_REPO=<worktree> ./check <property> %s  (harness rebuilt against the changed tree)" % tier,
     ]
-    res["needs"] = meta.get("needs")
-    res["summary"] = meta.get("summary")
+    res["needs"] = res.get("needs") or meta.get("needs")
+    res["summary"] = res.get("summary") or meta.get("summary")
+    if recheck:
+        res["rechecked_with_checks_as_of"] = time.strftime("%Y-%m-%d %H:%M UTC", time.gmtime())
     json.dump(res, open(os.path.join(dest, "meta.json"), "w"), indent=1)
     print("[seedtest] %s: caught_by=%s" % (name, res["caught_by"]))
     # remove the scratch worktree with its build output
